@@ -2,6 +2,12 @@ package main
 
 func dispatchMore(cmd string, args []string) bool {
 	switch cmd {
+	case "packobs":
+		cmdPackObs(args)
+		return true
+	case "digobs":
+		cmdDigObs(args)
+		return true
 	case "campaign":
 		cmdCampaign(args)
 		return true
